@@ -193,14 +193,37 @@ Combinations(l1, l2) ==
   {{l1[i], l2[j]} : <<i, j>> \in {p \in (1..Len(l1)) \X (1..Len(l2)) :
                                     Bug = "combinations_drop_diagonal" => l1[p[1]] # l2[p[2]]}}
 \* elements are POSITIONS in M.rxns (entity "reaction") or M.genes (entity "gene")
-KOReactions(M, entity, comb) == IF entity = "reaction" THEN comb ELSE GeneKO(M, {M.genes[g] : g \in comb})
-RowExpect(M, entity, comb) ==
-  LET KO == KnockOut(M, KOReactions(M, entity, comb)) F == Feasible(KO) h == HasOptF(F, KO) IN
+\* PRIOR KNOCK-OUT STATE of the model when the analysis is called: P = set of gene ids that are already
+\* non-functional, pmode = "none" | "ko" (gene.knock_out(): their reactions are already at (0,0)) |
+\* "flag" (only gene.functional = False).  A rule is evaluated against EVERY non-functional gene.
+PriorZero(M, P, pmode) == IF pmode = "ko" THEN GeneKO(M, P) ELSE {}
+Assoc(M, K) == {r \in RIdx(M) : RuleGenes(M.rules[r]) \cap K # {}}
+\* declarative: the reactions whose rule is false once K joins the non-functional genes, plus what is
+\* already at (0,0)
+GeneDeletionZero(M, K, P, pmode) ==
+  PriorZero(M, P, pmode) \cup {r \in Assoc(M, K) : ~EvalRule(M.rules[r], K \cup P)}
+\* protocol of _gene_deletion: Gene.knock_out one requested gene after the other, from the prior state
+\* (negative control: the rules are evaluated against the REQUESTED genes only)
+GeneDeletionProtocol(M, kseq, P, pmode) ==
+  IF Bug = "gene_deletion_ignores_prior"
+  THEN PriorZero(M, P, pmode) \cup {r \in Assoc(M, SeqSet(kseq)) : ~EvalRule(M.rules[r], SeqSet(kseq))}
+  ELSE SeqGeneKO(M, kseq, P, PriorZero(M, P, pmode))
+\* with "flag" the state is only meaningful for the property when no rule is already false (otherwise a
+\* reaction with a false rule is still active and "the reactions whose rule becomes false" is ambiguous)
+InScope_prior(M, P, pmode) == pmode = "flag" => GeneKO(M, P) = {}
+KOReactionsP(M, entity, comb, P, pmode) ==
+  IF entity = "reaction" THEN comb \cup PriorZero(M, P, pmode)
+  ELSE GeneDeletionZero(M, {M.genes[g] : g \in comb}, P, pmode)
+RowExpectP(M, entity, comb, P, pmode) ==
+  LET KO == KnockOut(M, KOReactionsP(M, entity, comb, P, pmode)) F == Feasible(KO) h == HasOptF(F, KO) IN
   [hasopt |-> h, opt |-> IF h THEN OptF(F, KO) ELSE 0, F |-> F]
+KOReactions(M, entity, comb) == KOReactionsP(M, entity, comb, {}, "none")
+RowExpect(M, entity, comb) == RowExpectP(M, entity, comb, {}, "none")
 Universe(M, entity) == IF entity = "reaction" THEN RIdx(M) ELSE 1..Len(M.genes)
 \* growth is not-a-number or below tnum/tden
-Essential(M, entity, tnum, tden) ==
-  {x \in Universe(M, entity) : LET e == RowExpect(M, entity, {x}) IN ~e.hasopt \/ e.opt * tden < tnum}
+EssentialP(M, entity, tnum, tden, P, pmode) ==
+  {x \in Universe(M, entity) : LET e == RowExpectP(M, entity, {x}, P, pmode) IN ~e.hasopt \/ e.opt * tden < tnum}
+Essential(M, entity, tnum, tden) == EssentialP(M, entity, tnum, tden, {}, "none")
 \* the pFBA optimum is a single point (then the default reference of the MOMA deletions is determined)
 PfbaPoints(F, M) == LET X == FracSetIn(F, M, 1, 1) m == MinL1In(X) IN {v \in X : L1(v) = m}
 
